@@ -75,7 +75,12 @@ func tryReplay(d *Driver, repo string, r *oblResult, info map[string]interface{}
 	os.WriteFile(ovFile, ob, 0644)
 	ctx, cancel := context.WithTimeout(context.Background(), 120*time.Second)
 	defer cancel()
-	cmd := exec.CommandContext(ctx, "go", "test", "-overlay", ovFile, "-vet=off", "-timeout", "60s", "-count=1", "-v", "-run", "TestGovcReplay", ".")
+	goArgs := []string{"test", "-overlay", ovFile, "-vet=off", "-timeout", "60s", "-count=1", "-v", "-run", "TestGovcReplay"}
+	if strings.Contains(string(tb), "//govc:race") {
+		goArgs = append(goArgs, "-race") // the driver demonstrates a data race: run it under the race detector
+	}
+	goArgs = append(goArgs, ".")
+	cmd := exec.CommandContext(ctx, "go", goArgs...)
 	cmd.Dir = repo
 	cmd.Env = append(os.Environ(), "GOFLAGS=-mod=mod", "GOPROXY=off", "GOSUMDB=off", "GOTOOLCHAIN=local")
 	var out bytes.Buffer
